@@ -213,6 +213,11 @@ func (s *checkpoint) StartSchedule() {
 		s.running = true
 		for s.running {
 			time.Sleep(s.config.Checkpoint.Interval)
+
+			if !s.running {
+				break
+			}
+
 			s.Save()
 		}
 	}()
